@@ -7,7 +7,9 @@ from . import gen, model, probe, pvdump
 from .common import WORK, rng_for
 
 PLURAL_COUNTS = [str(i) for i in range(0, 201)] + ["1000", "1000000", "1000001", "18446744073709551615",
-                                                  "1.0", "1.5", "0.0", "2.0", "0.5", "10.0", "-1", "-5"]
+                                                  "1.0", "1.5", "0.0", "2.0", "0.5", "10.0", "-1", "-5",
+                                                  "-2", "-3", "-11", "-21", "-22", "-101", "-128", "255", "65535", "2147483647", "-2147483648",
+                                                  "9223372036854775807", "-9223372036854775808"]
 
 
 def materialise(projects, tag, fmt="json", seed=0, surface_kw=None, shuffle=False):
